@@ -10,6 +10,7 @@ import (
 	"errors"
 	"fmt"
 	"io"
+	"sort"
 	"strings"
 	"testing"
 	"testing/iotest"
@@ -386,7 +387,24 @@ func prop(c Case) error {
 		return err
 	}
 	// (f) SQL wrappers
-	return sqlChecks(c, t, exp)
+	if err := sqlChecks(c, t, exp); err != nil {
+		return err
+	}
+	// (g) what was returned stays what it was: the Marshal result must not alias
+	// storage that a later call of the package reuses
+	other := geom.NewLineString(geom.XY).MustSetCoords([]geom.Coord{{-7, 9}, {11, -13}, {0.5, 2.25}})
+	for i := 0; i < 2; i++ {
+		if _, err := cd.marshal(other, bo); err != nil {
+			return fmt.Errorf("Marshal of a plain line string: %v", err)
+		}
+		if _, err := cd.hexEnc(other, bo); err != nil {
+			return fmt.Errorf("hex Encode of a plain line string: %v", err)
+		}
+	}
+	if !bytes.Equal(got, want) {
+		return fmt.Errorf("the slice returned by %s Marshal changed when another geometry was marshalled afterwards:\n now  % x\n was  % x", c.Mode, got, want)
+	}
+	return nil
 }
 
 type scanValuer interface {
@@ -509,7 +527,13 @@ func sqlChecks(c Case, t geom.T, exp *model.G) error {
 	if err := sameModel("Scan", expSQL, get(), true); err != nil {
 		return err
 	}
-	for k, w := range others {
+	otherKinds := make([]string, 0, len(others))
+	for k := range others {
+		otherKinds = append(otherKinds, k)
+	}
+	sort.Strings(otherKinds)
+	for _, k := range otherKinds {
+		w := others[k]
 		err := w.Scan(append([]byte{}, ndr...))
 		if err == nil {
 			return fmt.Errorf("Scan of a %s into the %s wrapper returned no error", g.Kind, k)
@@ -539,6 +563,21 @@ func sqlChecks(c Case, t geom.T, exp *model.G) error {
 		if err != nil || !bytes.Equal(av.([]byte), ndr) {
 			return fmt.Errorf("wkb.Geom.Value() = %v, %v", av, err)
 		}
+	}
+	// the value handed to database/sql must stay valid while later values are
+	// produced (a driver may hold several parameters of one statement at once)
+	otherLS := geom.NewLineString(geom.XY).MustSetCoords([]geom.Coord{{-7, 9}, {11, -13}, {0.5, 2.25}})
+	var ov driver.Valuer = &wkb.LineString{LineString: otherLS}
+	if sqlMode == "ewkb" {
+		ov = &ewkb.LineString{LineString: otherLS}
+	}
+	for i := 0; i < 2; i++ {
+		if _, err := ov.Value(); err != nil {
+			return fmt.Errorf("Value() of a plain line string: %v", err)
+		}
+	}
+	if !bytes.Equal(vb, ndr) {
+		return fmt.Errorf("the bytes returned by Value() changed when another wrapper's Value() was called afterwards:\n now % x\n was % x", vb, ndr)
 	}
 	_ = exp
 	return nil
